@@ -43,7 +43,7 @@ CHECKS = {
          "Exploration: after every Put/Add/Remove/Clear on LinkedHashMap and LinkedHashSet, Keys, Values, iterator walk, Each order and ToJSON order are compared with the model order. Holds on the executed histories only.",
          "Trusts the slice+map model; int, string and float keys (every NaN a key of its own).",
          "DESIGN.md §4 C09"),
- "C10": ("online reference-model monitor (pair of inverse maps), every key and value probed in both directions after every call",
+ "C10": ("online reference-model monitor (pair of inverse maps), every key and value probed in both directions after every call; loads of foreign JSON documents with colliding members are steps of the histories",
          "Exploration: HashBidiMap and TreeBidiMap over 4-6 keys x 4-6 values so all collision kinds occur constantly; Get/GetKey for the whole alphabets, inverse consistency on the implementation's own answers, Size=len(Keys)=len(Values), no duplicate/stale value. Holds on the executed histories only.",
          "Trusts the two-map model with the stated Put/Remove rule (class-keyed for TreeBidiMap).",
          "DESIGN.md §4 C10"),
@@ -71,7 +71,7 @@ CHECKS = {
          "Exploration: all 21 containers; every slice returned by Values()/Keys() is overwritten and appended to within capacity, earlier snapshots are kept across mutations incl. Sort/Clear/FromJSON, caller-owned slices with spare capacity go to every variadic constructor and inserter and are then overwritten, GetSortedValues(Func) must sort a copy. All judged through the full observer set incl. iteration order. Holds on the executed states only.",
          "Aliasing is judged through public observers only.",
          "DESIGN.md §4 C16"),
- "C17": ("child-process monitors: recover() panic monitor, per-call fstat on fd 1/2, per-case watchdog with replay confirmation; reflection-driven calls of every exported method with type-directed hostile arguments; liveness canaries",
+ "C17": ("child-process monitors: recover() panic monitor, per-call fstat on fd 1/2, per-case watchdog with replay confirmation; reflection-driven calls of every exported method with type-directed hostile arguments; whole cases borrowed from the workload generators of C01-C16 under the same monitors; liveness canaries",
          "Exploration: every exported method of every container, iterator, node and entry type (564 found by reflection) is called with hostile indices, empty/long variadics, absent keys, hostile JSON, the receiver itself, on empty and populated containers; plus the state-deep workloads of the other properties under the output monitor. A panic, a fatal error, a byte on stdout/stderr or a case that stops making progress (confirmed by replay) is a violation. Holds on the executed calls only.",
          "Documented use only (valid comparators, pure callbacks, iterator reads after successful moves); non-termination decided by a 60 s per-case watchdog confirmed by replay with 120 s.",
          "DESIGN.md §4 C17"),
